@@ -978,7 +978,13 @@ func _panic(n *node) {
 	value := genValue(n.child[1])
 
 	n.exec = func(f *frame) bltn {
-		panic(value(f))
+		v := value(f)
+		if r := recoveredValue(v); r.IsValid() && r.CanInterface() {
+			// Panic with the operand itself rather than its reflect.Value, so that
+			// a native caller of an interpreter function recovers the value intact.
+			panic(r.Interface())
+		}
+		panic(v)
 	}
 }
 
